@@ -149,7 +149,7 @@ Definition instr (code : list N) (ip : N) (m : mstate) : outcome * mstate :=
           end
       end end end)
   else if op =? OpIterationReset then
-    let e1 := env_push (menv m) in
+    let e1 := env_push (menv m) (lenN (stk m)) in
     match stk m with
     | [] => fail (set_env m e1) EInternal
     | v :: s =>
@@ -158,7 +158,10 @@ Definition instr (code : list N) (ip : N) (m : mstate) : outcome * mstate :=
     end
   else if op =? OpIterationNext then
     match stk m with
-    | vn :: idn :: it :: s =>
+    | vn :: idn :: rest =>
+      match drop_residue (menv m) rest with
+      | [] => fail m EInternal
+      | it :: s =>
         match it with
         | VIter v off =>
             match name_of o vn, name_of o idn, iter_next o v off with
@@ -177,6 +180,7 @@ Definition instr (code : list N) (ip : N) (m : mstate) : outcome * mstate :=
             end
         | _ => if iterable it then fail m ENeedOracle else fail m EScript
         end
+      end
     | _ => fail m EInternal
     end
   else if op =? OpRange then pop2 (fun b a s => on (vm_range a b) s)
